@@ -99,7 +99,7 @@ class PopSampler(object):
         self.n_samples = case['n_samples']
         self.top = np.array(case['top'], dtype=float)
         self.cov = None if case.get('cov') is None else np.array(case['cov'])
-        self.model = popbuild.build(self.spec, None)
+        self.model = popbuild.build(self.spec, case.get('n_ids'))
         self.label = 'PopulationModel ' + popbuild.label(self.spec)
         self.d = rp.n_dim(self.spec)
 
@@ -188,6 +188,44 @@ def w_sampler(case):
     n_nodes = case['n_nodes']
     S0, seam0 = run_with(sm)
     ntr = 1
+    # draws among alternatives are independent draws: with replacement
+    norep = [c for c in seam0.choice_calls if c.get('replace') is False
+             and (c.get('size') not in (None, 1))]
+    if norep:
+        viol.append({'sub': 'no_replacement', 'message': 'the samples of one call '
+                     'are chosen WITHOUT replacement: they are not independent '
+                     'draws (%s)' % lab, 'expected': 'replace=True',
+                     'observed': norep, 'behaviour': 'no_replacement'})
+    if case['family'] == 'pop':
+        # the sample handed out is the caller's: a later call with other parameters
+        # does not change it
+        kept, kept_copy = S0, S0.copy()
+        top_save = sm.top.copy()
+        sm.top = sm.top * 1.3
+        try:
+            sm.sample()
+        except Exception:
+            pass
+        sm.top = top_save
+        if not np.array_equal(kept, kept_copy):
+            viol.append({'sub': 'retained', 'message': 'a sample handed out earlier '
+                         'changed when the model was sampled again with other '
+                         'parameters (%s)' % lab, 'expected': kept_copy,
+                         'observed': kept, 'behaviour': 'retained'})
+        # the density the likelihood scores for the whole batch is the sum of the
+        # individuals' densities (what each draw was checked against)
+        if np.all(np.isfinite(S0)) and not case.get('n_ids'):
+            whole = float(sm.model.compute_log_likelihood(
+                sm.top, S0.copy(), **sm._kw()))
+            parts_ = 0.0
+            for i_ in range(S0.shape[0]):
+                sm.set_row(S0[i_])
+                parts_ += sm.logdens((i_, 0), S0[i_, 0])
+            if np.isfinite(parts_) and not tol.close(whole, parts_, 1e-9, 1e-10):
+                viol.append({'sub': 'joint', 'message': 'log-likelihood of the whole '
+                             'sample is not the sum of the log-likelihoods of its '
+                             'rows (%s)' % lab, 'expected': parts_,
+                             'observed': whole, 'behaviour': 'joint'})
     if getattr(sm, 'mutated', False):
         viol.append({'sub': 'inputs', 'message': 'sampling modified the parameter / '
                      'model-output / covariate arrays passed in (%s)' % lab,
@@ -484,6 +522,20 @@ def build(tier, seed):
             pop.append({'family': 'pop', 'spec': spec, 'n_samples': ns,
                         'top': top, 'cov': None if cov is None else cov.tolist(),
                         'n_nodes': n_nodes})
+    # heterogeneous models holding more individuals than are drawn, and a reduced
+    # model directly around a pooled model
+    for spec, n_ids in ((rp.H(1), 3), (rp.H(2), 2), (rp.H(1), 4), (rp.H(2), 3)):
+        for ns in (2, 3):
+            if ns > n_ids + 1:
+                continue
+            pop.append({'family': 'pop', 'spec': spec, 'n_samples': ns,
+                        'n_ids': n_ids,
+                        'top': popvals.top_values(spec, n_ids, seed), 'cov': None,
+                        'n_nodes': n_nodes})
+    for spec in (rp.Red(rp.P(2), {0: 1.4}), rp.Red(rp.P(3), {1: 0.6})):
+        pop.append({'family': 'pop', 'spec': spec, 'n_samples': 2,
+                    'top': popvals.top_values(spec, 1, seed), 'cov': None,
+                    'n_nodes': n_nodes})
     # integer seeds 0 and 7 alternate over the cases
     for k_, c_ in enumerate(err + pop):
         c_['sample_seed'] = 0 if k_ % 2 else 7
